@@ -628,6 +628,13 @@ pub struct ConcCfg {
 	pub max_sched: usize,
 	/// first thread always uses a retrying collection when one exists
 	pub retry_first: bool,
+	/// every thread's first acquisition uses a retrying collection when one exists
+	pub retry_all: bool,
+	/// chance that the schedule is a short motif repeated `pattern_len` times
+	/// (strict alternation and the like: what makes retrying collections chase
+	/// each other for many rounds) instead of independent choices
+	pub p_pattern_sched: u8,
+	pub pattern_len: usize,
 }
 
 impl Default for ConcCfg {
@@ -649,6 +656,9 @@ impl Default for ConcCfg {
 			p_coll_target: 215,
 			max_sched: 48,
 			retry_first: false,
+			retry_all: false,
+			p_pattern_sched: 0,
+			pattern_len: 0,
 		}
 	}
 }
@@ -668,7 +678,7 @@ pub fn gen_conc(src: &mut Src<'_>, cfg: &ConcCfg) -> ConcCase {
 				prog.push(Step::Debug { target: gen_target(src, &world, cfg.p_coll_target), cap: None, payload: 0 });
 			}
 			let mut target = gen_target(src, &world, cfg.p_coll_target);
-			if cfg.retry_first && t == 0 && a == 0 && !retry_colls.is_empty() {
+			if ((cfg.retry_first && t == 0) || cfg.retry_all) && a == 0 && !retry_colls.is_empty() {
 				target = TargetRef::Coll(retry_colls[src.pick(retry_colls.len())]);
 			}
 			let try_ = src.chance(cfg.p_try);
@@ -705,7 +715,14 @@ pub fn gen_conc(src: &mut Src<'_>, cfg: &ConcCfg) -> ConcCase {
 		}
 		programs.push(prog);
 	}
+	let pattern = src.chance(cfg.p_pattern_sched);
+	let motif_len = 1 + src.pick(4);
 	let mut schedule = src.rest();
-	schedule.truncate(cfg.max_sched);
+	if pattern && cfg.pattern_len > 0 && !schedule.is_empty() {
+		let motif: Vec<u8> = schedule.iter().copied().take(motif_len).collect();
+		schedule = motif.iter().copied().cycle().take(cfg.pattern_len).collect();
+	} else {
+		schedule.truncate(cfg.max_sched);
+	}
 	ConcCase { world, programs, schedule, writer_pref, forced: None }
 }
